@@ -76,7 +76,20 @@ def fresh_oracle(t):
     previous value-carrying message to it (a registration response may be repeated once: the
     registration can fall between a change and the I/O step).  -> None or a description"""
     last = {}                       # (r, c, tok) -> (value, was_registration_response)
-    for g in t.groups:
+    extras = {}
+    for e in t.extra_notifs:
+        extras.setdefault(e[0], []).append(e)
+    for gi, g in enumerate(list(t.groups) + [["-", []]]):
+        for (_, r, c, tok, v, ev) in extras.get(gi, []):
+            # an Observe option on the answer to a request for a later block
+            key = (r, c, tok)
+            if key in last:
+                pv, weak = last[key]
+                d = (v - pv) % (1 << 24)
+                if not (1 <= d < (1 << 23)):
+                    return ("block response %s: Observe %d after %d for the same observer is not fresher"
+                            % (ev, v, pv))
+            last[key] = (v, False)
         for o in g[1]:
             if o[0] == "Q":
                 r, c, tok, v = o[1:].split(":")
@@ -129,12 +142,18 @@ def judge(case, trace, mo, acc_l, acc_s, consts_expected=None):
             f = tk[1:].split(":")
             if len(f) >= 9 and f[2] == "n" and (int(f[4]) >> 5) == 2 and f[8] != "-":
                 body = bytes.fromhex(f[8]).decode("latin-1")
-                m = re.match(r"(\d+)\.(\d+)$", body)
+                m = re.match(r"(\d+)\.(\d+)(\.x*)?$", body)
                 if not m or int(m.group(2)) != cnt.get(int(m.group(1)), 0):
                     v.kind = "oracle"
                     v.what = ("notification %s carries body %r, the resource's latest state is %d"
                               % (tk, body, cnt.get(int(m.group(1)), 0) if m else -1))
                     return v
+    # every message with an Observe option (block responses included) is fresher than the last one
+    fo = fresh_oracle(t)
+    if fo is not None:
+        v.kind = "oracle"
+        v.what = fo
+        return v
     # session alive and referenced while it has observers
     subs_per_peer = {}
     for tk in t.dump.split():
